@@ -227,6 +227,7 @@ def _havoc(net, mode):
         stages = ("hyd",) if mode == "hydraulics" else ("heat",)
     hm = CTX.havoc_map
     tag = getattr(CTX, "sym_tag", "")
+    real = getattr(CTX, "havoc_value", None) or globals()["real"]
     for st in stages:
         if st == "hyd":
             for i, name in enumerate(nn):
@@ -388,3 +389,108 @@ def reach_by_witness(p, tol=1e-6):
     if bad:
         D.STATS.reach_failed += 1
     return bad
+
+
+# ---- encoding validation (DESIGN 3.6): symbolic result terms vs. a float run of the real code ----
+def witness_fluid(is_gas, env):
+    """concrete Fluid implementing the same interpretations the witness uses for the fluid UFs"""
+    import numpy as _rnp
+    from pandapipes.properties.fluids import (Fluid, FluidProperty, FluidPropertyLinear,
+                                              FluidPropertyConstant)
+    wf = witness_funcs()
+
+    class FnProp(FluidProperty):
+        def __init__(self, f):
+            super().__init__()
+            self.f = f
+
+        def get_at_value(self, *args):
+            if not args:
+                return self.f()
+            if any(hasattr(a, "__len__") for a in args):
+                return _rnp.vectorize(self.f, otypes=[float])(*args)
+            return self.f(*args)
+
+    props = {"density": FnProp(wf["rho"]), "viscosity": FnProp(wf["eta"]), "heat_capacity": FnProp(wf["cp"]),
+             "molar_mass": FluidPropertyConstant(env["molar_mass"])}
+    if is_gas:
+        props["compressibility"] = FluidPropertyLinear(env["K_slope"], env["K_offset"])
+        props["der_compressibility"] = FluidPropertyConstant(env["K_slope"])
+        props["lhv"] = FluidPropertyConstant(env["lhv"])
+        props["hhv"] = FluidPropertyConstant(env["hhv"])
+    else:
+        props["compressibility"] = FluidPropertyConstant(1.0)
+        props["der_compressibility"] = FluidPropertyConstant(0.0)
+    return Fluid("witnessfluid", "gas" if is_gas else "liquid", **props)
+
+
+def concrete_twin_run(spec, env, pipeflow_kwargs, is_gas, build_kwargs=None):
+    """float run of the *real* code (real numpy / scipy) from the same havocked state, one step"""
+    import pandapipes as pp
+    from . import nets
+    fixed, ident, tag = CTX.fixed, CTX.ident, CTX.sym_tag
+    uninstall()
+    pf = importlib.import_module("pandapipes.pipeflow")
+    saved = (pf.newton_raphson, pf.finalize_iteration)
+    try:
+        pf.newton_raphson = _nr_wrapper
+        pf.finalize_iteration = _fin_stub
+        CTX.havoc_value = lambda name: float(env[name])
+        net, _ = nets.build(spec, nets.concrete_valuer(env), fluid=witness_fluid(is_gas, env),
+                            **(build_kwargs or {}))
+        exc = None
+        try:
+            pp.pipeflow(net, **pipeflow_kwargs)
+        except Exception as e:   # noqa
+            exc = e
+        return net, exc
+    finally:
+        CTX.havoc_value = None
+        pf.newton_raphson, pf.finalize_iteration = saved
+        install(numba_pyfunc=bool(pipeflow_kwargs.get("use_numba")))
+        CTX.fixed, CTX.ident, CTX.sym_tag = fixed, ident, tag
+
+
+def validate_against_impl(spec, p, pipeflow_kwargs, is_gas, rtol=1e-7, build_kwargs=None):
+    """compare every res_* cell: symbolic term evaluated at the witness vs. float run of the real
+    code at the witness.  Returns (cells compared, list of mismatches)."""
+    from .evalterm import evaluate, EvalError
+    import math
+    if p.witness is None or p.exc is not None:
+        return 0, []
+    env = p.witness
+    funcs = witness_funcs()
+    snet = p.value
+    cnet, exc = concrete_twin_run(spec, env, pipeflow_kwargs, is_gas, build_kwargs)
+    if exc is not None:
+        return 0, ["concrete twin raised %r" % exc]
+    n, bad = 0, []
+    for key in [k for k in snet.keys() if isinstance(k, str) and k.startswith("res_")]:
+        st, ct = snet[key], cnet[key] if key in cnet else None
+        if ct is None or not hasattr(st, "columns"):
+            continue
+        for col in st.columns:
+            if col not in ct.columns:
+                continue
+            for ix in st.index:
+                a, b = st.at[ix, col], ct.at[ix, col]
+                if isinstance(a, Sym):
+                    try:
+                        av = evaluate(a.t, env, funcs)
+                    except (EvalError, ZeroDivisionError, ValueError, OverflowError) as e:
+                        continue
+                else:
+                    av = a
+                try:
+                    an, bn = av is None or math.isnan(av), b is None or math.isnan(b)
+                except TypeError:
+                    continue
+                if an or bn:
+                    if an != bn:
+                        bad.append("%s.%s[%s]: nan-ness differs (%r vs %r)" % (key, col, ix, av, b))
+                    n += 1
+                    continue
+                n += 1
+                if abs(av - b) > rtol * (1 + abs(av) + abs(b)):
+                    bad.append("%s.%s[%s]: %r (term) vs %r (float run)" % (key, col, ix, av, b))
+    return n, bad
